@@ -32,9 +32,10 @@ REQUIRED_CLASSES = {'quick': ['form:wstr', 'form:wtup', 'form:row', 'form:rows',
 
 def custom_labels(n, axis):
     if axis == 'r':
-        pool = ['1', 'row 2', 'β', '10', 'AA', 'x']      # digit-looking, with space, non-ASCII, multi-char
+        # digit-looking labels whose value is not their position, with space, non-ASCII, multi-char
+        pool = ['2', 'row 2', '1', '10', 'AA', 'x']
     else:
-        pool = ['A', 'c b', 'ü', 'B', '07', 'k']         # letter-looking columns
+        pool = ['B', '3', 'ü', 'A', '07', 'k']           # letter-looking / digit-looking columns, not in position
     return pool[:n]
 
 
